@@ -179,6 +179,14 @@ def run_copy(chk):
     if what:
       chk.violation('oracle', 'Module.copy(): ' + what, {'case': c, 'observed': r})
   chk.notes['copy_family'] = {'cases': len(cases)}
+  ss = common.run_impl('impl_c02_shared.py', {'share_scope': True}, timeout=600)['share_scope']
+  chk.count({'share_scope': 1}, True)
+  if ss['no_clash'] != {'y': 8.0, 'shapes': ['params/Base_0/extra/kernel', 'params/Base_0/proj/kernel']}:
+    chk.violation('oracle', 'nn.share_scope without a name clash: the moved child and the base\'s own child do not sit side by side under the base\'s name (or the output is wrong)', {'observed': ss['no_clash']})
+  for k in ('clash_base_first', 'clash_wrapper_first'):
+    if 'raised' not in ss[k]:
+      chk.violation('oracle', 'nn.share_scope moved a child into a scope that already has a child of that name and nothing raised (%s): two sub-modules silently share one set of variables' % k,
+                    {'observed': ss[k]})
 
 
 def run_shared(chk):
